@@ -495,6 +495,7 @@ PROPS["C17"] = dict(
            "SpecFail3": "a runtime evaluated a module body a number of times different from the distinct loadable files it required",
            "Diff1": "loader calls differ from the compile-cache model", "Impldata-race": "the Go race detector reported a data race",
            "Implmodule-state-shared-between-runtimes": "a module loaded from the shared Registry used another runtime's module instance (console printed through another runtime's util)",
+           "Implsource-file-fetched-more-than-once": "the SourceLoader was asked more than once, by runtimes sharing one Registry, for the package.json (or the main file) of a package directory",
            "Impldeadlock-or-hang": "the workload did not finish within 120 s", "Implworkload-crashed": "the workload process crashed"},
     trusted=["Go memory model; Go race detector (reports only executed interleavings)", "goja"],
     assumptions=["RegisterNativeModule and the Registry options are called before the Registry is shared", "Start/Stop/Terminate from one goroutine"],
